@@ -426,6 +426,26 @@ func runVarFam(vec map[string]interface{}) map[string]interface{} {
 		}
 		res := parseVariantsOut(out.String(), agg)
 		res["err"] = errStr(err)
+		if gBool(vec, "cli") && err == nil && !gBool(r, "stdin") && (gStr(r, "cmd") == "variants" || gStr(r, "cmd") == "samvar") {
+			var args []string
+			files := map[string][]byte{"anno." + suffix: anno}
+			if gStr(r, "cmd") == "variants" {
+				args = []string{"variants", "--msa", "@m.fa", "--reference", "ref", "-a", "@anno." + suffix, "-t", itoa(t)}
+				files["m.fa"] = msa
+			} else {
+				args = []string{"sam", "variants", "-s", "@in.sam", "-r", "@ref.fa", "-a", "@anno." + suffix, "-t", itoa(t)}
+				files["in.sam"] = samData
+				files["ref.fa"] = refFa
+			}
+			args = flagInt(flagInt(args, "--start", s, -1), "--end", e, -1)
+			args = flagBool(args, "--append-snps", app)
+			if agg {
+				args = append(args, "--aggregate", "--threshold", thousandths(gIntD(r, "thr", 0)))
+			}
+			for k, v := range cliRun(cliCase{files: files, args: args, inproc: out.String()}) {
+				res[k] = v
+			}
+		}
 		results = append(results, res)
 	}
 	obs["runs"] = results
